@@ -108,7 +108,7 @@ def run(ctx):
     # 3. production TxDependency under the controller
     out = ctx.path("dep.ndjson")
     args = {"groups": ["SCHED", "DEP", "DEPX", "ATOMIC"], "policy": "dfs", "preemption_bound": 2 if ctx.quick() else 3,
-            "max_runs": 1500 if ctx.quick() else 40000, "out": out, "scripts": scripts, "seed": ctx.seed}
+            "max_runs": 1500 if ctx.quick() else 20000, "out": out, "scripts": scripts, "seed": ctx.seed}
     r1 = ctx.vh("dep", args, timeout=3000)
     out2 = ctx.path("dep_rand.ndjson")
     args2 = dict(args, policy="pct", pct_depth=4, pct_len=150, max_runs=400 if ctx.quick() else 8000, out=out2)
@@ -135,7 +135,7 @@ def run(ctx):
     for name, path, r in (("trace_dfs", out, r1), ("trace_pct", out2, r2)):
         if not r["trace_runs"]:
             continue
-        ok, where, tres = ctx.validate_trace("TxDepTrace", path, name, consts, invariants=INVS)
+        ok, where, tres = ctx.validate_trace("TxDepTrace", path, name, consts, invariants=INVS, timeout=900 if ctx.quick() else 5400)
         ctx.trace_verdict(ok, where, tres, "TxDepTrace", path, consts, INVS, "TxDep.tla")
         ctx.traces += r["trace_runs"]
         ctx.trace_events += r["trace_events"]
